@@ -60,6 +60,19 @@ CLAIMED.update({
          "on the real server whose callbacks report marker chain, parameters, remote address, type map, liveness of the "
          "command context and cancellation of the previous one; TLC validates order, propagation, cancellation and the "
          "terminate hook.", CONN_NOTE, CONN_TECH, "4 C19"),
+ "C10": ("TLC explores sessions over a symbolic limit L (bodies L, L-1, small; declared L+1..3L+7 for all 14 message types; "
+         "declared 0..3; headers declaring 2^31..2^32-1 then end of input; oversized startup/password messages) and "
+         "checks one non-fatal 54000 error + continuation, or close before the session; the transition cover runs on the "
+         "real server with L instantiated from eight concrete limits (thorough: also the 16 MiB default); TLC validates "
+         "the reaction to each message and to the one after it.",
+         CONN_NOTE + " That an oversized body is never buffered is measured by C04 (allocation) and C18/PgReader (capacity).",
+         CONN_TECH, "4 C10"),
+ "C20": ("ParseParameters is transcribed into TLA+ (PgOps.CountParams); TLC enumerates every query up to a token bound "
+         "over text/?/$n (n up to and beyond 65535) and checks the counting rules; each query is rendered and the real "
+         "function is called directly (crash = violation) and through Parse + Describe on the real server; TLC validates "
+         "lengths, zero types and the ParameterDescription count.",
+         CONN_NOTE, "pure function transcribed into TLA+ (PgOps.CountParams), enumerated by TLC, each case replayed on "
+         "the real function and through the real server, validated by TLC", "4 C20"),
 })
 NOT_YET = "machinery for this property is not built yet in this revision (planned, see DESIGN.md section 4)"
 
